@@ -43,7 +43,7 @@ class Tag:
         return int.from_bytes(self.qualified_name.encode(), byteorder="little")
 
 
-def mk_tags(keys="abcdez", nonkeys="vw"):
+def mk_tags(keys="abcdeiz", nonkeys="vw"):
     t = {k: Tag(k) for k in keys}
     t.update({k: Tag(k, is_key=False) for k in nonkeys})
     return t
